@@ -45,6 +45,7 @@ type Op struct {
 	Size    int    `json:"size,omitempty"`  // file: payload length
 	Seed    uint64 `json:"seed,omitempty"`
 	DevType string `json:"devtype,omitempty"` // dev: chr | blk | fifo | reg | dir (mode type next to a DEVICE element)
+	Major   uint64 `json:"major,omitempty"`   // dev: numbers of the DEVICE element (0:0 is what stat reports for files and fifos)
 	Minor   uint64 `json:"minor,omitempty"`
 	Xattrs  []XA   `json:"xattrs,omitempty"` // XATTR elements behind the ENTRY (restored by LocalFS unless NoSameOwner)
 }
@@ -216,7 +217,7 @@ func buildArchive(c Case) []byte {
 		case "sym":
 			b = catar.AppendSymlink(b, r.Target)
 		case "dev":
-			b = catar.AppendDevice(b, devMajor, r.Minor)
+			b = catar.AppendDevice(b, r.Major, r.Minor)
 		default:
 			stack = []open{{entryStart: es, selfStart: 0, name: r.fullName()}}
 		}
@@ -264,7 +265,7 @@ func buildArchive(c Case) []byte {
 		case "sym":
 			b = catar.AppendSymlink(b, o.Target)
 		case "dev":
-			b = catar.AppendDevice(b, devMajor, o.Minor)
+			b = catar.AppendDevice(b, o.Major, o.Minor)
 		}
 		if len(stack) > 0 {
 			p := &stack[len(stack)-1]
@@ -319,6 +320,10 @@ func normalize(c Case) Case {
 		if o.Mtime < 0 || o.Mtime > 4_000_000_000 {
 			o.Mtime = 0
 		}
+		// device numbers: null (1:3, what the char sentinel is), 0:0, or the driverless range
+		if !(o.Major == 0 && o.Minor == 0) && !(o.Major == 1 && o.Minor == 3) && !(o.Major == devMajor && o.Minor < 16) {
+			o.Major, o.Minor = devMajor, o.Minor%16
+		}
 		// absolute symlink targets only ever name paths inside the chroot (everything is
 		// inside once chrooted; a NUL would end the string for the kernel)
 		o.Target = strings.ReplaceAll(o.Target, "\x00", "")
@@ -370,6 +375,46 @@ func normalize(c Case) Case {
 
 // ---------------------------------------------------------------------------- scratch tree
 
+// devSentinels exist in every level directory. The char device is 1:3 (null), the block
+// device sits in the driverless range.
+var devSentinels = []struct {
+	name         string
+	mode         uint32
+	major, minor uint64
+	uid, gid     int
+}{
+	{"cdev", unix.S_IFCHR | 0o600, 1, 3, 11, 12},
+	{"bdev", unix.S_IFBLK | 0o660, devMajor, 7, 13, 14},
+	{"fifo", unix.S_IFIFO | 0o640, 0, 0, 15, 16},
+}
+
+// nodeOf tells what stat(2) reports for the object a symlink target names (absolute targets, and
+// relative ones as seen from dest itself): the device type and numbers a DEVICE entry has to
+// carry to "be the same node".
+func nodeOf(target string) (devtype string, major, minor uint64, ok bool) {
+	base := target[strings.LastIndexByte(target, '/')+1:]
+	if !strings.HasPrefix(target, "/") && !strings.HasPrefix(target, "../") {
+		return "", 0, 0, false
+	}
+	switch base {
+	case "cdev":
+		return "chr", 1, 3, true
+	case "bdev":
+		return "blk", devMajor, 7, true
+	case "fifo":
+		return "fifo", 0, 0, true
+	case "victim", "xvictim", "f", "x", "g", "s":
+		if target == "/abs/x" || base != "x" {
+			return "reg", 0, 0, true
+		}
+	}
+	return "", 0, 0, false
+}
+
+// targets naming outside device nodes, fifos and regular files
+var nodeTargets = []string{"/sb/l1/cdev", "../../cdev", "/cdev", "../cdev", "/sb/bdev", "../bdev", "/sb/l1/l2/fifo", "../../fifo", "../fifo",
+	"/sb/l1/xvictim", "../victim", "../../xvictim", "/abs/x", "../../outside/f", "/victim"}
+
 var levelDirs = []string{".", "sb", "sb/l1", "sb/l1/l2", "sb/l1/l2/l3"}
 
 func must(err error) {
@@ -391,6 +436,13 @@ func buildTree(root, nonce string) {
 		mk(filepath.Join(l, "outside/sub"))
 		wr(filepath.Join(l, "outside/f"), "outside file "+l)
 		wr(filepath.Join(l, "outside/sub/g"), "outside sub file "+l)
+		// device and fifo sentinels with distinctive mode and owner (never opened by anything here)
+		for _, d := range devSentinels {
+			p := filepath.Join(root, l, d.name)
+			must(unix.Mknod(p, d.mode, int(unix.Mkdev(uint32(d.major), uint32(d.minor)))))
+			must(os.Lchown(p, d.uid, d.gid))
+			must(unix.Fchmodat(unix.AT_FDCWD, p, d.mode&0o7777, 0))
+		}
 		// a sentinel that already carries attributes (an unpacker could change their values)
 		wr(filepath.Join(l, "xvictim"), "sentinel with xattrs "+l)
 		must(unix.Lsetxattr(filepath.Join(root, l, "xvictim"), "user.sentinel", []byte("orig"), 0))
@@ -652,6 +704,32 @@ func runReal(c Case) (o hx.Outcome) {
 				absTarget = true
 			}
 		}
+		if !op.NoName && op.K == "dev" && ei < len(res.Calls) {
+			// a device entry over a symlink of the same name (made by the archive in this directory, or left in dest before)
+			linkTarget, viaPre := "", false
+			if h := hist[len(hist)-1]; len(h) > 0 && h[len(h)-1].k == "sym" && h[len(h)-1].name == raw {
+				linkTarget = h[len(h)-1].target
+			} else if c.PreLink != "" && raw == "l" && len(hist) == 1 && rootOp.K == "dir" {
+				linkTarget, viaPre = c.PreLink, true
+				for _, e := range hist[0] {
+					if e.name == "l" {
+						linkTarget = ""
+					}
+				}
+			}
+			if linkTarget != "" {
+				sameName["same-name:symlink-then-device"] = true
+				relOK := strings.HasPrefix(linkTarget, "/") || (len(hist) == 1 && rootOp.K == "dir")
+				if dt, ma, mi, ok := nodeOf(linkTarget); ok && relOK && dt == op.DevType && ma == op.Major && mi == op.Minor {
+					sameName["same-name:symlink-then-device:numbers-match-target"] = true
+					sameName["same-name:symlink-then-device:numbers-match-target:"+dt] = true
+					if viaPre {
+						sameName["same-name:prelink-then-device:numbers-match-target"] = true
+					}
+					nontrivial = true
+				}
+			}
+		}
 		if !op.NoName && ei < len(res.Calls) && res.Calls[ei].Err == "" {
 			h := append(hist[len(hist)-1], acc{raw, op.K, op.Target})
 			hist[len(hist)-1] = h
@@ -892,8 +970,8 @@ func runReal(c Case) (o hx.Outcome) {
 
 // Name kinds and routes that make up a signature "C18:<name kind>:<route>:<effect>".
 var (
-	sigKinds  = []string{"dotdot-name", "slash-in-name", "absolute-name", "self-slash-name", "nameless-entry", "empty-name", "dot-name", "dir-over-symlink", "entry-behind-symlink-root", "dest-is-symlink", "dest-became-symlink", "plain-name", "unattributed"}
-	sigRoutes = []string{"lexical", "via-symlink", "own-link-followed", "self", "deferred", "unknown"}
+	sigKinds  = []string{"dotdot-name", "slash-in-name", "absolute-name", "self-slash-name", "nameless-entry", "empty-name", "dot-name", "dir-over-symlink", "entry-behind-symlink-root", "dest-is-symlink", "dest-became-symlink", "entry-over-symlink", "plain-name", "unattributed"}
+	sigRoutes = []string{"lexical", "via-symlink", "own-link-followed", "link-kept-and-followed", "self", "deferred", "unknown"}
 )
 
 // mechanism names how entry #call got outside: the route (lexical = the joined path itself
@@ -968,6 +1046,8 @@ func mechanism(entries []Op, calls []callRec, call int, destState string) string
 			k = "dest-became-symlink"
 		case route == "via-symlink":
 			k = "dir-over-symlink"
+		case calls[call].Kind != "sym" && calls[call].Over != "":
+			k, route = "entry-over-symlink", "link-kept-and-followed"
 		case calls[call].Kind == "sym":
 			k, route = "plain-name", "own-link-followed"
 		default:
@@ -1018,7 +1098,8 @@ func genAttrs(t *rapid.T, o *Op) {
 		o.Seed = uint64(rapid.IntRange(1, 9).Draw(t, "seed"))
 	case "dev":
 		o.DevType = rapid.SampledFrom([]string{"chr", "chr", "blk", "fifo", "reg", "dir"}).Draw(t, "devtype")
-		o.Minor = uint64(rapid.IntRange(0, 3).Draw(t, "minor"))
+		nums := rapid.SampledFrom([][2]uint64{{0, 0}, {0, 0}, {1, 3}, {1, 3}, {devMajor, 7}, {devMajor, 5}, {devMajor, 0}}).Draw(t, "devnums")
+		o.Major, o.Minor = nums[0], nums[1]
 	}
 }
 
@@ -1173,7 +1254,29 @@ func genCase(t *rapid.T) Case {
 		}
 	}
 
-	switch rapid.SampledFrom([]string{"random", "random", "sym-child", "sym-child", "sym-dir", "replace", "self", "self", "dotdot-dir", "dotdot-entry", "dotdot-entry", "absolute", "long", "same-name", "same-name", "same-name", "after-root-bye"}).Draw(t, "scenario") {
+	switch rapid.SampledFrom([]string{"random", "random", "sym-child", "sym-child", "sym-dir", "replace", "self", "self", "dotdot-dir", "dotdot-entry", "dotdot-entry", "absolute", "long", "same-name", "same-name", "same-name", "after-root-bye", "link-then-node", "link-then-node"}).Draw(t, "scenario") {
+	case "link-then-node": // a symlink to an outside node or file, then a DEVICE entry of the same name that "is" that node
+		name := "x"
+		tg := rapid.SampledFrom(nodeTargets).Draw(t, "nodetarget")
+		if len(ops) == 0 && wrap == 0 && rapid.IntRange(0, 2).Draw(t, "viaprelink") == 0 {
+			name, c.PreLink, c.Dest, c.DestLink = "l", tg, "", "" // the link was left by an earlier unpack
+		} else {
+			o := plainEntry(t, "sym", name)
+			o.Target, o.Xattrs = tg, nil
+			ops = append(ops, o)
+			if rapid.IntRange(0, 5).Draw(t, "between") == 0 {
+				ops = append(ops, plainEntry(t, "file", "other"))
+			}
+		}
+		d := plainEntry(t, "dev", name)
+		if dt, ma, mi, ok := nodeOf(tg); ok && rapid.IntRange(0, 4).Draw(t, "match") > 0 {
+			d.DevType, d.Major, d.Minor = dt, ma, mi
+		}
+		d.Xattrs = nil
+		ops = append(ops, d)
+		if rapid.Bool().Draw(t, "again") {
+			ops = append(ops, plainEntry(t, rapid.SampledFrom([]string{"dev", "file", "sym"}).Draw(t, "againk"), name))
+		}
 	case "after-root-bye": // entries behind the goodbye of the root directory (and behind extra goodbyes)
 		open := 1
 		for _, o := range ops {
@@ -1330,7 +1433,7 @@ var spec = &hx.Spec[Case]{
 	Level: "exploration",
 	Rule: "cases = hostile catar element sequences (own encoder, names verbatim, well-formed goodbye tables) unpacked by UnTar(LocalFS) or UnTarIndex(LocalStore) " +
 		"in a chrooted child, the root entry being a directory, file, symlink or device and the destination path being a directory, absent, a file or a symlink; non-trivial = the unpacker was handed (all earlier entries accepted) at least one entry whose name has a '..' component or a '/', " +
-		"or an entry whose path crosses a symlink made earlier by the same archive (or left in dest by an earlier unpack), or a directory, a file and a symlink accepted under one name in one directory (work deferred for the directory then meets the link), or a named entry behind an accepted root symlink; distinct by (path, sequence of entry kinds, names, symlink targets)",
+		"or an entry whose path crosses a symlink made earlier by the same archive (or left in dest by an earlier unpack), or a directory, a file and a symlink accepted under one name in one directory (work deferred for the directory then meets the link), or a named entry behind an accepted root symlink, or a DEVICE entry over a same-name symlink whose target has the entry's type and device numbers; distinct by (path, sequence of entry kinds, names, symlink targets)",
 	Assumptions: []string{
 		"oracle: lstat fields (type, mode, owner, mtime), link targets, device numbers and file contents of every object in the chroot tree outside dest are equal before and after; directory mtime differences explained by a reported child are folded into that child; atime and ctime are not compared; extended attributes are compared (llistxattr/lgetxattr on the object itself, as root: user.*, trusted.*, security.*)",
 		"the destination path is an empty directory (optionally holding one symlink 'l', as an earlier unpack could leave it), a directory with content, absent, a file, or a symlink; nothing but the unpacker touches the tree",
@@ -1344,6 +1447,8 @@ var spec = &hx.Spec[Case]{
 		"name:symlink-name", "name:nameless", "name:self-slash", "symlink-then-entry", "absolute-symlink-target",
 		"xattrs:sym", "xattrs:file", "xattrs:dir", "xattrs:sym:restored:target-exists-outside",
 		"same-name:dir-then-file-then-symlink", "same-name:dir-then-file-then-symlink:target-exists-outside", "same-name:file-then-symlink-then-file",
+		"same-name:symlink-then-device:numbers-match-target", "same-name:symlink-then-device:numbers-match-target:chr", "same-name:symlink-then-device:numbers-match-target:reg",
+		"same-name:symlink-then-device:numbers-match-target:fifo", "same-name:symlink-then-device:numbers-match-target:blk", "same-name:prelink-then-device:numbers-match-target",
 		"same-name:dir-then-symlink(refused)", "same-name:prefix-names:dir-then-file-then-symlink", "same-name:length>=4", "outside:metadata-compared",
 		"root:dir", "root:sym", "root:file", "root:dev", "root:non-dir:followed-by-named-entry", "root:non-dir:followed-by-nameless-entry", "root:sym:accepted:followed-by-named-entry",
 		"after-root-goodbye:named-entry", "after-extra-goodbye:named-entry",
@@ -1427,7 +1532,7 @@ func TestEnum(t *testing.T) {
 		if o.K == "file" {
 			o.Size, o.Seed = 5, 1
 		}
-		if o.K == "dev" {
+		if o.K == "dev" && o.DevType == "" {
 			o.DevType = "chr"
 		}
 		if o.K == "sym" && o.Target == "" {
@@ -1587,6 +1692,31 @@ func TestEnum(t *testing.T) {
 			}
 		}
 	}
+	// a symlink to an outside node or file, then a DEVICE entry of the same name carrying the
+	// type and numbers stat reports for the link's target (and one that differs): the link must
+	// be replaced, never kept and followed. Link made by the archive or left in dest before.
+	for _, tg := range hx.Pick([]string{"/sb/l1/cdev", "../../cdev", "/sb/bdev", "../fifo", "/sb/l1/l2/fifo", "/sb/l1/xvictim", "../victim", "/abs/x"}, nodeTargets) {
+		dt, ma, mi, _ := nodeOf(tg)
+		match := attr(Op{K: "dev", Name: "node", DevType: dt, Major: ma, Minor: mi})
+		differ := match
+		differ.Major, differ.Minor = devMajor, 5
+		matchL, differL := match, differ
+		matchL.Name, differL.Name = "l", "l"
+		link := attr(Op{K: "sym", Name: "node", Target: tg})
+		for _, p := range pathFor() {
+			cases = append(cases,
+				Case{Path: p, Workers: 1, Ops: []Op{link, match}},
+				Case{Path: p, Workers: 1, Ops: []Op{link, differ}},
+				Case{Path: p, Workers: 1, Ops: []Op{link, match, match, attr(Op{K: "file", Name: "node"})}},
+				Case{Path: p, Workers: 1, PreLink: tg, Ops: []Op{matchL}},
+				Case{Path: p, Workers: 1, PreLink: tg, Ops: []Op{differL}},
+				Case{Path: p, Workers: 1, NoSameOwner: true, Ops: []Op{link, match}},
+			)
+		}
+	}
+	for _, p := range pathFor() { // absolute target, two directories down
+		cases = append(cases, Case{Path: p, Workers: 1, Ops: wrapIn(2, attr(Op{K: "sym", Name: "node", Target: "/sb/l1/cdev"}), attr(Op{K: "dev", Name: "node", DevType: "chr", Major: 1, Minor: 3}))})
+	}
 	// root entry kinds x destination states x what follows the root
 	type destState struct{ state, link string }
 	dests := []destState{{"", ""}, {"nonempty", ""}, {"absent", ""}, {"file", ""}, {"symlink", "outside"}, {"symlink", "/sb/outside"}, {"symlink", "realdest"}}
@@ -1640,7 +1770,7 @@ func TestEnum(t *testing.T) {
 	}
 	hx.AddNote("enumerated_cases", len(cases))
 	if runPool(t, cases) {
-		hx.Exhaustive("listed hostile names x {dir,file,symlink,device} x nesting depths; listed symlink targets (made by the archive or present before) x entries beneath/over the link; replace-current-directory sequences for every listed self name (nameless, empty, '.', '/', '//', '/.', './', './/'); entries with user.*/trusted.* xattrs incl. symlinks to existing outside objects; listed same-name and prefix-name sequences (dir, file, symlink in turn) x listed outside targets; root entry kinds (dir, named dir, file, fifo, device with file mode, symlink to listed targets) x destination states (empty, with content, absent, file, symlink outside/inside) x listed follow-ups; entries behind the root goodbye")
+		hx.Exhaustive("listed hostile names x {dir,file,symlink,device} x nesting depths; listed symlink targets (made by the archive or present before) x entries beneath/over the link; replace-current-directory sequences for every listed self name (nameless, empty, '.', '/', '//', '/.', './', './/'); entries with user.*/trusted.* xattrs incl. symlinks to existing outside objects; listed same-name and prefix-name sequences (dir, file, symlink in turn) x listed outside targets; root entry kinds (dir, named dir, file, fifo, device with file mode, symlink to listed targets) x destination states (empty, with content, absent, file, symlink outside/inside) x listed follow-ups; entries behind the root goodbye; symlink (archive-made or pre-existing) to listed outside nodes/files then a DEVICE entry with matching and with differing type/numbers")
 	}
 }
 
